@@ -19,8 +19,9 @@ import (
 )
 
 type impl struct {
-	g *gen
-	r *verifwalker.Runner
+	g  *gen
+	pg *pgen // stream walker.print (WALKER_STREAM=print), print.go
+	r  *verifwalker.Runner
 }
 
 var (
@@ -60,10 +61,16 @@ func main() {
 			}
 		}
 	}()
-	vh.Main("walker.parse", &impl{r: r})
+	vh.Main(streamName(), &impl{r: r})
 }
 
 func (im *impl) Gen(h *vh.H, i int) string {
+	if h.Stream == "walker.print" {
+		if im.pg == nil {
+			im.pg = &pgen{h: h}
+		}
+		return im.pg.next(i)
+	}
 	if im.g == nil {
 		im.g = newGen(h)
 	}
@@ -75,6 +82,9 @@ func (im *impl) Exec(h *vh.H, op string) string {
 	busySince.Store(time.Now().UnixNano())
 	defer busySince.Store(0)
 
+	if strings.HasPrefix(op, "print ") {
+		return im.execPrint(h, op)
+	}
 	f := strings.Split(op, " ")
 	if len(f) != 3 || f[0] != "walk" {
 		return "bad-op"
